@@ -622,6 +622,107 @@ def run_same_name(arg):
     return part.result()
 
 
+# ---- the keyword operators in models of the 3.x syntax ---------------------------------------------------------------------
+OLD_ALIASES = {"and": "&&", "or": "||", "not": "!", "imply": None}      # imply has no symbolic spelling: a imply b == !(a) || (b)
+OLD_TEXTS = {       # place -> texts with {0} {1} slots for an alias each
+    "guard": ["i == 0 {0} j > 1", "{0} (i == 0) {1} j > 1", "i == 0 {0} j > 1 {1} i < 3", "{0} {1} (i == 0)", "(i == 0 {0} j > 1) {1} x >= 2"],
+    "invariant": ["x <= 5 {0} i >= 0", "{0} (i < 0) {1} x <= 5"],
+    "assign": ["i := (j > 1 {0} i == 0) ? 1 : 0", "j := {0} (i == 0) ? 2 : 3"],
+    "initialiser": ["(2 > 1 {0} 1 > 0) ? 1 : 0"],
+}
+
+
+def old_syntax_cases():
+    import itertools
+    for place, texts in OLD_TEXTS.items():
+        for tx in texts:
+            nslots = 2 if "{1}" in tx else 1
+            binary = ["and", "or", "imply"]
+            for combo in itertools.product(binary + ["not"], repeat=nslots):
+                # a slot directly in front of an operand takes the unary alias, one between operands a binary alias
+                ok = True
+                for k, a in enumerate(combo):
+                    unary_slot = (tx.split("{%d}" % k)[0].rstrip() == "" or tx.split("{%d}" % k)[0].rstrip().endswith(("(", "{0}", ":=", "and", "or")))
+                    if unary_slot != (a == "not"):
+                        ok = False
+                if ok:
+                    yield place, tx, combo
+
+
+def old_model(place, text, xml):
+    d = {"guard": "i == 0", "invariant": "x <= 5", "assign": "i := 1", "initialiser": "1"}
+    d[place] = text
+    if xml:
+        t = X.template("T", locations=[X.location("id0", "A", inv=d["invariant"]), X.location("id1", "B")], init="id0",
+                       transitions=[X.transition("id0", "id1", guard=d["guard"], assign=d["assign"])])
+        return X.nta("int i; int j; clock x; int k := %s;" % d["initialiser"], [t], "system T;")
+    return ("int i; int j; clock x; int k := %s;\nprocess T { state A { %s }, B; init A; trans A -> B { guard %s; assign %s; }; }\nsystem T;\n"
+            % (d["initialiser"], d["invariant"], d["guard"], d["assign"]))
+
+
+def symbolic(text, combo):
+    """the same expression with the aliases in their symbolic forms"""
+    out = text
+    for k, a in enumerate(combo):
+        if a == "imply":
+            # a imply b  ->  !(a) || (b): only used with a parenthesis-free left operand up to the previous slot / start
+            left, right = out.split("{%d}" % k, 1)
+            head = ""
+            m = re.search(r"^(.*(?:\{\d\}|:=|\())(.*)$", left, re.S)
+            if m:
+                head, left = m.group(1), m.group(2)
+            out = "%s !(%s) || (%s" % (head, left.strip(), right.strip())
+            # close the right operand at the first top-level closer or the end
+            depth, pos = 0, len(out)
+            start = out.rindex("|| (") + 4
+            for j in range(start, len(out)):
+                ch = out[j]
+                if ch == "(":
+                    depth += 1
+                elif ch == ")":
+                    if depth == 0:
+                        pos = j
+                        break
+                    depth -= 1
+                elif ch == "?" and depth == 0:
+                    pos = j
+                    break
+            out = out[:pos].rstrip() + ")" + (" " if pos < len(out) else "") + out[pos:]
+        else:
+            out = out.replace("{%d}" % k, OLD_ALIASES[a], 1)
+    return out
+
+
+def run_old_syntax(_):
+    part = engine.Part()
+    w = engine.worker("fast")
+    for place, tx, combo in old_syntax_cases():
+        if "imply" in combo and (len(combo) > 1 or place == "assign"):
+            continue        # (imply next to another alias: its symbolic form depends on the grouping; kept to the single-alias texts)
+        kw = tx.format(*combo)
+        sym = symbolic(tx, combo)
+        for xml in (False, True):
+            a, b = old_model(place, kw, xml), old_model(place, sym, xml)
+            ra, rb = X.run_docs(w, [a, b], want=["dump", "nosymtypes", "noinv"], kind="xml" if xml else "xta", newxta=False)
+            part.count()
+            key = "old-syntax:%s:%s:%s" % ("xml" if xml else "xta", place, kw)
+            rp = {"op": "xml" if xml else "xta", "newxta": False, "buf": a, "rewritten": b, "want": ["dump", "nosymtypes"]}
+            if engine.check_crash(part, PID, ra, key, rp) or engine.check_crash(part, PID, rb, key + " (symbolic)", rp):
+                continue
+            part.nontrivial_case(key)
+            if X.msgs(ra) != X.msgs(rb) or ra.get("exc") != rb.get("exc"):
+                part.outcome("old-syntax:verdict-changes")
+                part.violation("old-syntax:diagnostics:%s:%s" % (place, "+".join(combo)),
+                               "3.x %s `%s` vs `%s`: diagnostics %s vs %s" % (place, kw, sym, X.msgs(ra)[:2], X.msgs(rb)[:2]), rp)
+            elif not X.msgs(ra) and (first_difference(ra.get("dump"), rb.get("dump")) or ra.get("methods") != rb.get("methods")):
+                part.outcome("old-syntax:verdict-changes")
+                part.violation("old-syntax:document:%s:%s" % (place, "+".join(combo)), "3.x %s `%s` vs `%s`: documents differ at %s" %
+                               (place, kw, sym, first_difference(ra.get("dump"), rb.get("dump"))), rp)
+            else:
+                part.outcome("old-syntax:invariant/" + ("rejected" if X.msgs(ra) else "accepted"))
+    return part.result()
+
+
 def main():
     t = engine.tier()
     rep = engine.Report(PID, "exploration",
@@ -634,7 +735,8 @@ def main():
                         "around every node of every depth-2 expression tree of the C02 enumeration. One name in two scopes: 7 kinds of "
                         "declaration (typedefs of ranges, records, arrays and scalar sets, array variables, constants, functions) x every "
                         "pair of scopes (global, two templates, a function body) x every pair of well-formed / ill-formed spellings x the "
-                        "renaming of either declaration alone. A case is one (model, rewrite site).")
+                        "renaming of either declaration alone. Models of the 3.x syntax (XTA and XML): the keyword operators and / or / not / imply "
+                        "at every slot of 10 guard, invariant, update and initialiser texts against their symbolic forms. A case is one (model, rewrite site).")
     vs = variants(t)
     jobs = []
     for vi, (vname, so, raw) in enumerate(vs):
@@ -652,6 +754,9 @@ def main():
         rep.merge(res)
     for res in engine.pmap(run_same_name, [(i, engine.ncpu()) for i in range(engine.ncpu())]):
         rep.merge(res)
+    rep.merge(run_old_syntax(None))
+    if not os.environ.get("UTAPV_REPO") and not rep.outcomes.get("old-syntax:invariant/accepted"):
+        raise RuntimeError("C09 generator bug: no 3.x model is accepted")
     rep.assumptions = ["a newline inside a query is not a layout rewrite (it separates queries); queries get blank/tab/comment only",
                        "messages are compared as multisets, positions ignored, the renaming mapped back by whole-word replacement",
                        "the base model uses every identifier for one entity (the function parameter v twice), so token-level renaming is consistent",
